@@ -349,6 +349,9 @@ class RenderContext:
                 token=token,
             )
 
+        if self.disabled_tags:
+            disabled_tags = self.disabled_tags | (disabled_tags or set())
+
         if carry_loop_iterations:
             loop_iteration_carry = reduce(
                 mul,
